@@ -150,6 +150,11 @@ struct Proto {
           g3 = g2;
           g2.reset();
           deref(g3, id, "copy-assigned guard after the source was reset");
+          // copy "downwards": the first guard's hazard pointer slot is free again, so this copy lands in a slot
+          // that a concurrent scan may already have passed
+          GP g4(g3);
+          g3.reset();
+          deref(g4, id, "copy of a copy after all earlier guards were reset");
         }
         break;
       }
